@@ -183,3 +183,10 @@ impl vstd::std_specs::fmt::DisplaySpecImpl for VehicleIdx {
 impl vstd::std_specs::fmt::DisplaySpecImpl for Node {
     open spec fn fmt_req(&self, f: &std::fmt::Formatter<'_>) -> bool { true }
 }
+pub mod fmt_axioms {
+use super::*;
+use vstd::prelude::*;
+/// A-display: `{}` of a `&Node` (Display impl of the repository, no-op here) has no precondition
+pub broadcast axiom fn axiom_fmt_node()
+    ensures #[trigger] vstd::std_specs::fmt::fmt_req_all::<Node>();
+}
